@@ -24,7 +24,7 @@ SCRATCH = "/tmp/mut_E3_out"
 
 # (name, kind, file, [(old text, new text)], Props id, expectation)
 MUTATIONS = [
-    ("unchanged", "control", None, [], "C17 C19 C18 C09 C14 C10 C02 C20", "all pass"),
+    ("unchanged", "control", None, [], "C17 C19 C18 C09 C14 C10 C02 C20 C11 C03 C12 C13", "all pass"),
     # ---- meaning-changing edits (the brief's four, plus further ones)
     ("max_bond_length: or -> and", "breaking", "mofun/detect_bonds.py",
      [("if el1 in NON_METALS or el2 in NON_METALS:", "if el1 in NON_METALS and el2 in NON_METALS:")], "C17", "fail"),
@@ -129,6 +129,61 @@ MUTATIONS = [
      [("        search_pattern = Atoms.load(find_path)\n", "        sp = Atoms.load(find_path)  # the pattern\n"),
       ("replace_pattern_in_structure(atoms, search_pattern, replace_pattern,", "replace_pattern_in_structure(atoms, sp, replace_pattern,"),
       ("results = find_pattern_in_structure(atoms, search_pattern,", "results = find_pattern_in_structure(atoms, sp,")], "C20", "pass"),
+    # ---- third batch
+    ("extend_types: arguments of the mass append swapped (seeded/C14-w2)", "breaking", "mofun/atoms.py",
+     [("self.atom_type_masses = np.append(self.atom_type_masses, other.atom_type_masses)", "self.atom_type_masses = np.append(other.atom_type_masses, self.atom_type_masses)")], "C11", "fail"),
+    ("extend_types: offsets taken AFTER the tables have grown", "breaking", "mofun/atoms.py",
+     [("        offsets = (self.num_atom_types, self.num_bond_types,\n                   self.num_angle_types, self.num_dihedral_types, self.num_improper_types)\n\n", ""),
+      ("        return offsets\n\n    def _extend_extra_fields", "        offsets = (self.num_atom_types, self.num_bond_types,\n                   self.num_angle_types, self.num_dihedral_types, self.num_improper_types)\n        return offsets\n\n    def _extend_extra_fields")], "C11", "fail"),
+    ("extend_types: bond coefficients extended by other's ANGLE coefficients", "breaking", "mofun/atoms.py",
+     [("self.bond_type_coeffs = np.append(self.bond_type_coeffs, other.bond_type_coeffs)", "self.bond_type_coeffs = np.append(self.bond_type_coeffs, other.angle_type_coeffs)")], "C11", "fail"),
+    ("extend_types: two append statements exchanged", "neutral", "mofun/atoms.py",
+     [("        self.atom_type_masses = np.append(self.atom_type_masses, other.atom_type_masses)\n        self.atom_type_labels = np.append(self.atom_type_labels, other.atom_type_labels)\n",
+       "        self.atom_type_labels = np.append(self.atom_type_labels, other.atom_type_labels)\n        self.atom_type_masses = np.append(self.atom_type_masses, other.atom_type_masses)\n")], "C11", "pass"),
+    ("near window guard: np.any(diag <= 0) -> np.prod(diag) <= 0 (seeded/C03-w1)", "breaking", "mofun/mofun.py",
+     [("if not structure.cell_is_orthorhombic() or np.any(np.diag(cell) <= 0):", "if not structure.cell_is_orthorhombic() or np.prod(np.diag(cell)) <= 0:")], "C03", "fail"),
+    ("near window guard: <= 0 -> < 0", "breaking", "mofun/mofun.py",
+     [("or np.any(np.diag(cell) <= 0):", "or np.any(np.diag(cell) < 0):")], "C03", "fail"),
+    ("near window guard: or -> and", "breaking", "mofun/mofun.py",
+     [("if not structure.cell_is_orthorhombic() or np.any(", "if not structure.cell_is_orthorhombic() and np.any(")], "C03", "fail"),
+    ("cell_is_orthorhombic: == -> <=", "breaking", "mofun/atoms.py",
+     [("return (np.diag(self.cell) * np.identity(3) == self.cell).all()", "return (np.diag(self.cell) * np.identity(3) <= self.cell).all()")], "C03", "fail"),
+    ("cell_is_orthorhombic: .all() -> .any()", "breaking", "mofun/atoms.py",
+     [("return (np.diag(self.cell) * np.identity(3) == self.cell).all()", "return (np.diag(self.cell) * np.identity(3) == self.cell).any()")], "C03", "fail"),
+    ("near window guard: operands of `or` swapped; cell_is_orthorhombic: sides of == swapped", "neutral", "mofun/mofun.py",
+     [("if not structure.cell_is_orthorhombic() or np.any(np.diag(cell) <= 0):", "if np.any(np.diag(cell) <= 0) or not structure.cell_is_orthorhombic():")], "C03", "pass"),
+    ("box test: cell[1] for cell[2] in the z bound (seeded/C03-w2)", "breaking", "mofun/mofun.py",
+     [("pos[2] >= -distance and pos[2] < distance + cell[2]):", "pos[2] >= -distance and pos[2] < distance + cell[1]):")], "C03", "fail"),
+    ("box test: upper x bound < -> <=", "breaking", "mofun/mofun.py",
+     [("if (pos[0] >= -distance and pos[0] < distance + cell[0] and", "if (pos[0] >= -distance and pos[0] <= distance + cell[0] and")], "C03", "fail"),
+    ("box test: comparisons written the other way round", "neutral", "mofun/mofun.py",
+     [("if (pos[0] >= -distance and pos[0] < distance + cell[0] and", "if (-distance <= pos[0] and distance + cell[0] > pos[0] and")], "C03", "pass"),
+    ("_delete_and_reindex: np.any -> np.all", "breaking", "mofun/atoms.py",
+     [("if np.any([a in sorted_deleted_indices for a in atom_idx_tuple]):", "if np.all([a in sorted_deleted_indices for a in atom_idx_tuple]):")], "C10", "fail"),
+    ("_delete_and_reindex: entries drop by 2", "breaking", "mofun/atoms.py",
+     [("np.subtract(updated_arr, 1, out=updated_arr, where=updated_arr>i)", "np.subtract(updated_arr, 2, out=updated_arr, where=updated_arr>i)")], "C10", "fail"),
+    ("_delete_and_reindex: re-index loop dropped", "breaking", "mofun/atoms.py",
+     [("        for i in sorted_deleted_indices:\n            np.subtract(updated_arr, 1, out=updated_arr, where=updated_arr>i)\n", "")], "C10", "fail"),
+    ("_delete_and_reindex: locals renamed", "neutral", "mofun/atoms.py",
+     [("        for i, atom_idx_tuple in enumerate(arr):\n            if np.any([a in sorted_deleted_indices for a in atom_idx_tuple]):\n                arr_idx_to_delete.append(i)",
+       "        for k, row in enumerate(arr):\n            if np.any([x in sorted_deleted_indices for x in row]):\n                arr_idx_to_delete.append(k)")], "C10", "pass"),
+    ("replicate: cell scaled by COLUMNS (reshape(1, 3))", "breaking", "mofun/atoms.py",
+     [("repl_atoms.cell = self.cell * np.array(repldims).reshape(3, 1)", "repl_atoms.cell = self.cell * np.array(repldims).reshape(1, 3)")], "C12", "fail"),
+    ("replicate: factors of the product swapped", "neutral", "mofun/atoms.py",
+     [("repl_atoms.cell = self.cell * np.array(repldims).reshape(3, 1)", "repl_atoms.cell = np.array(repldims).reshape(3, 1) * self.cell")], "C12", "pass"),
+    ("Atoms.load: the cml branch calls load_p1_cif", "breaking", "mofun/atoms.py",
+     [("            return cls.load_cml(fd or path, **kwargs)", "            return cls.load_p1_cif(fd or path, **kwargs)")], "C13", "fail"),
+    ("Atoms.load: 'cml' branch tests 'xml'", "breaking", "mofun/atoms.py",
+     [('        elif filetype == "cml":\n            return cls.load_cml', '        elif filetype == "xml":\n            return cls.load_cml')], "C13", "fail"),
+    ("Atoms.save: the dot of the extension is kept", "breaking", "mofun/atoms.py",
+     [("                _, filetype = os.path.splitext(path)\n                filetype = filetype[1:]\n\n        if filetype == \"lmpdat\":\n            with use_or_open(fd, path, mode='w') as fh:",
+       "                _, filetype = os.path.splitext(path)\n\n        if filetype == \"lmpdat\":\n            with use_or_open(fd, path, mode='w') as fh:")], "C13", "fail"),
+    ("Atoms.load: a file object without filetype no longer raises", "breaking", "mofun/atoms.py",
+     [("            fd = f\n            if filetype is None:\n                raise Exception(\"If a File object is passed, a filetype must be passed with it\")\n        else:\n            # other cases are treated as either Pathlib path or strings\n            path = f\n            if filetype is None:\n                _, filetype = os.path.splitext(path)\n                filetype = filetype[1:]\n\n        if filetype == \"lmpdat\":\n            with use_or_open(fd, path) as fh:",
+       "            fd = f\n            if filetype is None:\n                filetype = \"lmpdat\"\n        else:\n            # other cases are treated as either Pathlib path or strings\n            path = f\n            if filetype is None:\n                _, filetype = os.path.splitext(path)\n                filetype = filetype[1:]\n\n        if filetype == \"lmpdat\":\n            with use_or_open(fd, path) as fh:")], "C13", "fail"),
+    ("Atoms.load: cif branch before cml branch", "neutral", "mofun/atoms.py",
+     [('        elif filetype == "cml":\n            return cls.load_cml(fd or path, **kwargs)\n        elif filetype == "cif":\n            with use_or_open(fd, path) as fh:\n                return cls.load_p1_cif(fh, **kwargs)\n',
+       '        elif filetype == "cif":\n            with use_or_open(fd, path) as fh:\n                return cls.load_p1_cif(fh, **kwargs)\n        elif filetype == "cml":\n            return cls.load_cml(fd or path, **kwargs)\n')], "C13", "pass"),
     # ---- leaving the subset
     ("max_bond_length: while loop added (outside the subset)", "unsupported", "mofun/detect_bonds.py",
      [('    """Return the maximum length of a bond between two elements"""\n', '    while False:\n        pass\n')], "C17", "Unsupported"),
@@ -145,7 +200,7 @@ def _uses_code(mod, seen):
         return seen[mod]
     seen[mod] = False
     p = os.path.join(core.LEAN, *mod.split(".")) + ".lean"
-    if mod.startswith("MofunModel.Proofs.") and os.path.exists(p):
+    if mod.startswith(("MofunModel.Proofs.", "MofunModel.Props.")) and os.path.exists(p):
         seen[mod] = any(_uses_code(m, seen) for m in _IMPORT.findall(open(p).read()))
     return seen[mod]
 
